@@ -37,6 +37,7 @@ func init() {
 			{Name: "comments", Run: runComments},
 			{Name: "statements", Run: runStatements},
 			{Name: "nesting", Run: runNesting},
+			{Name: "flatrepetition", Run: runFlatRepetition},
 			{Name: "asi", Run: runASI},
 			{Name: "restricted", Run: runRestricted},
 			{Name: "regexdiv", Run: runRegexDiv},
@@ -203,7 +204,7 @@ func (h *harness) compare(key, src, exp string) {
 	r.Eval(true)
 	r.Outcome(obs)
 	if r.WantSample() {
-		r.Sample(fmt.Sprintf("%q => %s", src, clip(obs, 160)))
+		r.Sample(fmt.Sprintf("%q => %s", clip(src, 300), clip(obs, 160)))
 	}
 	if obs != exp {
 		r.Mismatch(engine.Mismatch{Key: key, Input: src, Expected: exp, Observed: obs, Note: detail})
